@@ -478,6 +478,11 @@ func (in *Interp) funcNameForPC(pc *Term) Value {
 			return runtimeName(f.fn)
 		}
 	}
+	for _, f := range in.methodExprs {
+		if f.code == pc && f.fn != nil {
+			return runtimeName(f.fn)
+		}
+	}
 	for _, f := range in.extraFuncs {
 		if f.code == pc {
 			if f.fn != nil {
